@@ -34,10 +34,10 @@ PROPS = {
             "condition is absent or true, appends once per row, evaluates every target on that row (R-ROWLOOP, 4 "
             "gate cases executed abstractly); FROM expression AND-ed with WHERE (R-FROMAND, 4 cases). Does not "
             "decide the numeric value of an operator application, regular-expression results or overload "
-            "resolution for nested expressions. The constant a cell computes with is the parameter written at that place: positional placeholders bind in textual order whatever the order clauses are compiled in (R-PLACEHOLDER). R-DIVGUARD and the operator terms of R-OPSEM are decided by interpreting each implementation on terms with a zero and a non-zero divisor: no division by the second operand is evaluated before the zero test, the zero case returns NULL, the other case returns the operation of the operator's name. AND / OR / COALESCE are interpreted on terms for every operand list of length 1-3 over NULL, FALSE, TRUE, zero/empty and other values: the value is that of the truth table (NULL, FALSE or TRUE for AND / OR), operands are evaluated once, left to right, and evaluation stops where the statement says it stops (R-3VL). No evaluator writes state that outlives the row (write census, R-SHARED): a cell is computed from its row alone. R-NULLSTRICT is decided on terms: every NULL / non-NULL operand assignment of every NULL-propagating evaluator class (and every outcome of the comparisons between non-NULL values); a NULL reaches neither the operation nor an ordering comparison nor arithmetic. The function-call evaluator recognises NULL operands by identity (R-EVALALL). AND, OR, literals, `*` and column names compile to the node of that meaning over all their arguments in source order (R-NODEBUILD, handlers interpreted on terms). The scalar functions a cell is computed with are the recorded definitions (R-DEFN, see C18). The source tables hand the scan one row per directive resp. posting, and the null table `#` exactly one NULL row (R-ROWGEN). The operator handlers return the overload of the operator written, applied to the compiled operands in order, whatever the syntax of the operands (R-OPNODE): no operator is rewritten into another one (NOT (a < b) is not a >= b: NOT NULL is TRUE). No evaluator writes to its node while evaluating a row (R-ROWPURE, from the write census; the cache of an uncorrelated subquery is the one confirmed exception)."),
+            "resolution for nested expressions. The constant a cell computes with is the parameter written at that place: positional placeholders bind in textual order whatever the order clauses are compiled in (R-PLACEHOLDER). R-DIVGUARD and the operator terms of R-OPSEM are decided by interpreting each implementation on terms with a zero and a non-zero divisor: no division by the second operand is evaluated before the zero test, the zero case returns NULL, the other case returns the operation of the operator's name. AND / OR / COALESCE are interpreted on terms for every operand list of length 1-3 over NULL, FALSE, TRUE, zero/empty and other values: the value is that of the truth table (NULL, FALSE or TRUE for AND / OR), operands are evaluated once, left to right, and evaluation stops where the statement says it stops (R-3VL). No evaluator writes state that outlives the row (write census, R-SHARED): a cell is computed from its row alone. R-NULLSTRICT is decided on terms: every NULL / non-NULL operand assignment of every NULL-propagating evaluator class (and every outcome of the comparisons between non-NULL values); a NULL reaches neither the operation nor an ordering comparison nor arithmetic. The function-call evaluator recognises NULL operands by identity (R-EVALALL). AND, OR, literals, `*` and column names compile to the node of that meaning over all their arguments in source order (R-NODEBUILD, handlers interpreted on terms). The scalar functions a cell is computed with are the recorded definitions (R-DEFN, see C18). The source tables hand the scan one row per directive resp. posting, and the null table `#` exactly one NULL row (R-ROWGEN). The operator handlers return the overload of the operator written, applied to the compiled operands in order, whatever the syntax of the operands (R-OPNODE): no operator is rewritten into another one (NOT (a < b) is not a >= b: NOT NULL is TRUE). No evaluator writes to its node while evaluating a row (R-ROWPURE, from the write census; the cache of an uncorrelated subquery is the one confirmed exception). Subscripts and attribute accesses on a non-NULL container give the entry for the key (NULL when missing, the default of getitem(x, k, d)) resp. the field getter applied to the value (R-ACCESSEVAL)."),
         'assumptions': TRUSTED_STRUCT + TRUSTED_ABSINT[3:],
         'quick': [sxev.rule_nullstrict, evalnodes.rule_divguard, evalnodes.rule_promote, evalnodes.rule_opsem,
-                  sxev.rule_3vl, sx.rule_rowloop, sxk.rule_fromand, sxk.rule_implicitcast, gr.rule_precmatrix, sxst.rule_placeholder, st.rule_shared, sxev.rule_evalall, sxk.rule_nodebuild, sxl.rule_defn, sxt.rule_rowgen, sxg.rule_opnode, st.rule_rowpure],
+                  sxev.rule_3vl, sx.rule_rowloop, sxk.rule_fromand, sxk.rule_implicitcast, gr.rule_precmatrix, sxst.rule_placeholder, st.rule_shared, sxev.rule_evalall, sxk.rule_nodebuild, sxl.rule_defn, sxt.rule_rowgen, sxg.rule_opnode, st.rule_rowpure, sxev.rule_accesseval],
         'thorough': [],
     },
     'C02': {
@@ -292,10 +292,10 @@ PROPS = {
             "record field, all tables registered, structure aliases consistent (R-TABLEFIELDS); meta()/entry_meta()/"
             "any_meta() rewritten to the right dictionary lookups, open/close selection from the (open, close) pair "
             "(R-METAREWRITE); getitem NULL-propagating (R-NULLSTRICT). Does not decide that beancount's getters and "
-            "convert functions compute what their names say. FROM qualifiers are applied to a copy of the connection's table, so the rows of a statement come from its own clauses only (R-TABLECOPY); getitem on a NULL container gives NULL with or without a default. attach() on terms, with and without a file name in the dsn: every class in TABLES is bound by a plain item store - replacing an earlier binding - to a table over the entries and options of this attach, and the connection's options and errors come from the same ledger (R-ATTACH). GetAttrColumn / GetItemColumn evaluate to the attribute / item they were built with and announce the dtype given; _typed_namedtuple_to_columns makes one column per annotated field, in order, published under its renamed name but reading the field itself, Optional unwrapped, generics reduced to their origin, `meta` announced as Metadata (R-TYPEDCOLS, on terms with typing's introspection stubbed). AccountsTable, CommoditiesTable and PricesTable keep beancount's own readings of the ledger - getters.get_account_open_close, get_account_types of the options, get_commodity_directives, prices.build_price_map - and their row generators walk exactly those maps (R-TABLESOURCE). Options a column accessor fixes in the calls it makes (hash_entry(..., exclude_meta=...)) are part of its recorded access path (R-ACCESSPATH call_consts). Presenting the ledger does not change it: no table, accessor or renderer of the source stores into or mutates the directives, their metadata or the entries list (R-INPUTMUT)."),
+            "convert functions compute what their names say. FROM qualifiers are applied to a copy of the connection's table, so the rows of a statement come from its own clauses only (R-TABLECOPY); getitem on a NULL container gives NULL with or without a default. attach() on terms, with and without a file name in the dsn: every class in TABLES is bound by a plain item store - replacing an earlier binding - to a table over the entries and options of this attach, and the connection's options and errors come from the same ledger (R-ATTACH). GetAttrColumn / GetItemColumn evaluate to the attribute / item they were built with and announce the dtype given; _typed_namedtuple_to_columns makes one column per annotated field, in order, published under its renamed name but reading the field itself, Optional unwrapped, generics reduced to their origin, `meta` announced as Metadata (R-TYPEDCOLS, on terms with typing's introspection stubbed). AccountsTable, CommoditiesTable and PricesTable keep beancount's own readings of the ledger - getters.get_account_open_close, get_account_types of the options, get_commodity_directives, prices.build_price_map - and their row generators walk exactly those maps (R-TABLESOURCE). Options a column accessor fixes in the calls it makes (hash_entry(..., exclude_meta=...)) are part of its recorded access path (R-ACCESSPATH call_consts). Presenting the ledger does not change it: no table, accessor or renderer of the source stores into or mutates the directives, their metadata or the entries list (R-INPUTMUT). meta['k'], getitem() and x.field read the container as it is: dict.get with the key (and default) given, the field getter of the structure (R-ACCESSEVAL)."),
         'assumptions': TRUSTED_STRUCT + TRUSTED_ABSINT[:2],
         'quick': [tb.rule_accesspath, sxt.rule_rowgen, tb.rule_tablefields, tb.rule_metarewrite, dtype.rule_dtype_columns,
-                  dtype.rule_typesafe_columns, sxst.rule_tablecopy, st.rule_shared, sxt.rule_attach, sxt.rule_typedcols, sxt.rule_tablesource, st.rule_inputmut],
+                  dtype.rule_typesafe_columns, sxst.rule_tablecopy, st.rule_shared, sxt.rule_attach, sxt.rule_typedcols, sxt.rule_tablesource, st.rule_inputmut, sxev.rule_accesseval],
         'thorough': [],
     },
     'C13': {
